@@ -144,7 +144,7 @@ def main():
   budget = getattr(drv, "BUDGET", {}).get(args.tier)
   if os.environ.get("VERIF_BUDGET"):
     budget = float(os.environ["VERIF_BUDGET"])
-  scn_timeout = getattr(drv, "SCENARIO_TIMEOUT", 900)
+  scn_timeout = getattr(drv, "SCENARIO_TIMEOUT", 3000)
   jobs = args.jobs or min(getattr(drv, "JOBS", 16), os.cpu_count() or 4, max(1, len(scns)))
   logdir = os.path.join(VERIF, "logs", prop)
 
